@@ -591,7 +591,7 @@ Proof.
     cbv iota. remember (it :: items) as its eqn:Eits. clear Eits.
     match goal with |- context [fold_opt ds_insert ?a ?b] => destruct (fold_opt ds_insert a b) as [ds'|] eqn:Ed end; [|reflexivity].
     match goal with |- context [fold_opt tag_insert (tags s) ?b] => destruct (fold_opt tag_insert (tags s) b) as [tg'|] eqn:Et end; [|reflexivity].
-    unfold contents; simpl. f_equal. eapply add_frame; eauto.
+    unfold contents; simpl. f_equal. eapply add_frame with (c := c); eauto.
     + intros r Hr. apply in_map_iff in Hr. destruct Hr as [x [<- _]]. reflexivity.
     + intros ->. congruence.
   - unfold do_import. destruct refs as [|f refs]; [reflexivity|].
@@ -602,7 +602,48 @@ Proof.
     destruct (existsb _ _); [reflexivity|]. destruct (existsb _ _); [reflexivity|]. destruct (existsb _ _); [reflexivity|].
     match goal with |- context [fold_opt ds_insert ?a ?b] => destruct (fold_opt ds_insert a b) as [ds'|] eqn:Ed end; [|reflexivity].
     match goal with |- context [fold_opt tag_insert (tags s) ?b] => destruct (fold_opt tag_insert (tags s) b) as [tg'|] eqn:Et end; [|reflexivity].
-    unfold contents; simpl. f_equal. eapply add_frame; eauto.
+    unfold contents; simpl. f_equal. eapply add_frame with (c := c); eauto.
     + intros r Hr. apply in_map_iff in Hr. destruct Hr as [x [<- _]]. reflexivity.
     + intros ->. congruence.
+Qed.
+
+(* ---- conflict exactly when uniqueness would break (single-entry batches) ---------------------------- *)
+Lemma associate_conflict_iff_p : forall s c i t d,
+  coll_type s c = Some TAGGED -> has_type s t = true -> alive s i = true ->
+  (snd (step s (Associate c [Ref i t d])) = Err Conflict <->
+   exists x, In x (tags s) /\ r_coll x = c /\ r_type x = t /\ r_data x = d /\ r_id x <> i).
+Proof.
+  intros s c i t d Hc Ht Ha. simpl. unfold do_associate. rewrite Hc. simpl.
+  rewrite Ht. simpl. unfold group. simpl. rewrite N.eqb_refl. simpl.
+  unfold assoc_row. simpl. rewrite Ha. unfold tag_upsert.
+  destruct (existsb (uk_eq (ref_row c (Ref i t d))) (filter (fun x => negb (pk_eq (ref_row c (Ref i t d)) x)) (tags s))) eqn:E; simpl.
+  - split; [intros _|reflexivity]. apply existsb_exists in E. destruct E as [x [Hx Hu]].
+    apply filter_In in Hx. destruct Hx as [Hx Hp]. exists x. apply uk_eq_true in Hu. unfold ukey, ref_row in Hu; simpl in Hu.
+    inversion Hu. repeat split; auto. intros F. apply negb_true_iff in Hp.
+    assert (pk_eq (ref_row c (Ref i t d)) x = true) by (apply pk_eq_true; unfold pkey, ref_row; simpl; congruence). congruence.
+  - split; [discriminate|]. intros [x [Hx [H1 [H2 [H3 H4]]]]]. exfalso.
+    rewrite existsb_false_forall in E. assert (In x (filter (fun x0 => negb (pk_eq (ref_row c (Ref i t d)) x0)) (tags s))) as Hf.
+    { apply filter_In. split; auto. apply negb_true_iff. destruct (pk_eq (ref_row c (Ref i t d)) x) eqn:P; auto.
+      apply pk_eq_true in P. unfold pkey, ref_row in P; simpl in P. inversion P. congruence. }
+    specialize (E x Hf). assert (uk_eq (ref_row c (Ref i t d)) x = true) by (apply uk_eq_true; unfold ukey, ref_row; simpl; congruence).
+    congruence.
+Qed.
+
+Lemma insert_conflict_iff_p : forall s t c d i,
+  has_type s t = true -> coll_type s c = Some RUN -> valid_d d = true -> alive s i = false ->
+  (snd (step s (Insert t c [(d, i)])) = Err Conflict <->
+   exists x, In x (tags s) /\ (ukey x = (c, t, d) \/ pkey x = (i, c))).
+Proof.
+  intros s t c d i Ht Hc Hd Ha. simpl. unfold do_insert. rewrite Ht, Hc. simpl. rewrite Hd. simpl.
+  unfold ds_insert. simpl. unfold alive in Ha. destruct (ds_find (datasets s) i); [discriminate|].
+  unfold tag_insert.
+  destruct (existsb (fun x => pk_eq (Row c t d i) x || uk_eq (Row c t d i) x) (tags s)) eqn:E; simpl.
+  - split; [intros _|reflexivity]. apply existsb_exists in E. destruct E as [x [Hx Hu]]. exists x. split; auto.
+    apply orb_true_iff in Hu. destruct Hu as [Hu|Hu].
+    + right. apply pk_eq_true in Hu. symmetry. exact Hu.
+    + left. apply uk_eq_true in Hu. symmetry. exact Hu.
+  - split; [discriminate|]. intros [x [Hx Hk]]. exfalso. rewrite existsb_false_forall in E. specialize (E x Hx).
+    apply orb_false_iff in E. destruct E as [E1 E2]. destruct Hk as [Hk|Hk].
+    + assert (uk_eq (Row c t d i) x = true) by (apply uk_eq_true; symmetry; exact Hk). congruence.
+    + assert (pk_eq (Row c t d i) x = true) by (apply pk_eq_true; symmetry; exact Hk). congruence.
 Qed.
